@@ -50,11 +50,11 @@ def plain_values(tier):
     d1 = containers(LEAVES)
     rep = [None, True, 1, 1.5, "a", M.FIX_UUID] + [d1[0], d1[1], d1[5], d1[40], d1[41], d1[100]]
     if tier == "thorough":
-        rep = LEAVES + d1[::9]
+        rep = LEAVES + d1[::29]
     d2 = containers(rep, keys=("k", 1))
     out = d0 + d1 + d2
     if tier == "thorough":
-        rep3 = [None, 1, "a"] + d2[::37]
+        rep3 = [None, 1, "a"] + d2[::97]
         out += containers(rep3, keys=("", (1, 2)))
     return out
 
